@@ -167,8 +167,9 @@ def _run_tables(ctx):
                 got = tr[-1] if tr else None
                 n_rows += 1
                 ok = got == "RET(agg:Result::%s)" % want
-                if not ok:
-                    ctx.ob("R2", "class:%s" % want, False,
+                bits = "".join("1" if x_ else "0" for x_ in (st_ok, success, code_some, is255, sig_some, notfound))
+                if True:
+                    ctx.ob("R2", "class:%s@%s" % (want, bits), ok,
                            "child outcome (spawned=%s success=%s code=%s ==255:%s signal=%s NotFound=%s) is classified %s; oracle %s" % (st_ok, success, code_some, is255, sig_some, notfound, got, want), fn=ex, how="event-graph simulation")
             ctx.ob("R2", "classification-table", True, "%d outcome rows simulated" % n_rows, fn=ex, how="event-graph simulation over %d assignments" % n_rows)
         # the status examined is that of the command built from the batch
